@@ -174,6 +174,19 @@ def _closure_remove(infos: list[Any], direct: set[int], parent: dict[int, Any]) 
     return removed
 
 
+def resurface(base: dict[str, Any], removed: list[Any], suppressed: Any) -> dict[str, list[Any]] | None:
+    """only_once: a message is shown once per build, at its first NON-suppressed occurrence.  When the shown
+    occurrence is removed, the first duplicate the baseline dropped that is not suppressed itself takes its place.
+    Returns {file: [infos that now appear]} (None if that cannot be decided from the recorded duplicates)."""
+    out: dict[str, list[Any]] = {}
+    for msg in dict.fromkeys(i.message for i in removed if i.only_once):
+        for f, d in base["once_dropped"]:
+            if d.message == msg and not suppressed(f, d):
+                out.setdefault(f, []).append(d)
+                break
+    return out
+
+
 def predict_ignores(base: dict[str, Any], main: str, added: dict[int, list[str]], unused_on: bool) -> Prediction:
     from mypy.errorcodes import sub_code_map
 
@@ -194,10 +207,18 @@ def predict_ignores(base: dict[str, Any], main: str, added: dict[int, list[str]]
     removed = _closure_remove(infos, direct, parent)
     pr.removed = [i for i in infos if id(i) in removed]
     # only_once: a later identical message that the baseline dropped would now surface
-    dropped_msgs = {i.message for _f, i in base["once_dropped"]}
-    if any(i.only_once and i.message in dropped_msgs for i in pr.removed):
-        pr.skip = "only_once message with a dropped duplicate would be removed"
-        return pr
+    def suppressed(f: str, d: Any) -> bool:
+        if d.blocker or f != main:
+            return False
+        return any(ln in added and covers(added[ln], d.code) is not None for ln in span_of(d)) or any(
+            ln in base["ignored_lines"] and covers(base["ignored_lines"][ln], d.code) is not None for ln in span_of(d))
+
+    pr.resurfaced = resurface(base, pr.removed, suppressed)  # type: ignore[attr-defined]
+    for f, ds in pr.resurfaced.items():  # type: ignore[attr-defined]
+        for d in ds:  # a resurfacing occurrence on an annotated line would have been claimed by that comment
+            for ln in span_of(d):
+                if f == main and ln in added:
+                    pr.volatile.add(ln)
     # errors that an existing comment swallowed and that an added comment could claim as well
     existing = base["ignored_lines"]
     for f, s in base["swallowed"]:
@@ -213,6 +234,8 @@ def predict_ignores(base: dict[str, Any], main: str, added: dict[int, list[str]]
                     pr.volatile.add(ln)
     for f, lst in emap.items():
         pr.keep[f] = [i for i in lst if not (f == main and id(i) in removed)]
+    for f, ds in pr.resurfaced.items():  # type: ignore[attr-defined]
+        pr.keep.setdefault(f, []).extend(ds)
     # unused-ignore expectation for every added comment
     for ln, listed in added.items():
         exclusive = [i for i, lines in claims[ln] if lines == [ln]]
@@ -256,8 +279,12 @@ def predict_disable(base: dict[str, Any], per_file_codes: dict[str, tuple[set[st
         removed = _closure_remove(infos, direct, parent)
         pr.removed += [i for i in infos if id(i) in removed]
         pr.keep[f] = [i for i in infos if id(i) not in removed]
-    if any(i.only_once and i.message in dropped_msgs for i in pr.removed):
-        pr.skip = "only_once message with a dropped duplicate would be removed"
+    def suppressed(f: str, d: Any) -> bool:
+        dis, en = per_file_codes.get(f, per_file_codes[""])
+        return not d.blocker and d.code is not None and not code_enabled(d.code, dis, en)
+
+    for f, ds in resurface(base, pr.removed, suppressed).items():
+        pr.keep.setdefault(f, []).extend(ds)
     # an existing comment that swallowed only errors of the now-disabled code suppresses nothing any more:
     # it must be reported unused (predicted for bare / single-code comments of the main file; other shapes
     # have a composite message and are left out of the comparison as volatile lines)
